@@ -1,12 +1,21 @@
 import Cactus.Lemmas.Final
+import Cactus.Lemmas.Once
+import Cactus.Lemmas.NoErr
 import Cactus.Lemmas.Basic
 import Cactus.Lemmas.Table
 /-!
-# C12 — handle-consuming APIs stay sound on objects that take part in adoptions (first layer)
+# C12 — handle-consuming APIs stay sound on objects that take part in adoptions
 
 After fix F3 `try_unwrap` and the stealing branch of `make_mut` give an allocation up through
-`giveUp`: purge the peers named in its table, drop the table, then release.  First layer: what
-`giveUp` leaves behind, and that the purge removes every record of the object from a peer.
+`giveUp`: purge the peers named in its table, drop the table, then release.  What is proved here:
+* one-step lemmas: `C12_purge_entry`, `C12_purge_skips_self`, `C12_purgeOne_core`;
+* whole histories, no hypothesis on the history, every state: `C12_no_reference_to_given_up`,
+  `C12_values_never_duplicated`, `C12_owned_value_not_destroyed`;
+* examples: `try_unwrap` and the stealing `make_mut` on adopting objects with Weak handles; the
+  theorems instantiated.
+Not claimed: that the graph stays *fully recorded* — `make_mut` (clone and steal) puts the value's
+stored handles into a fresh allocation with an empty table, so `Full` fails afterwards (see
+`Props/C09.lean`); the contract `P` (records ≤ handles) is what is preserved.
 -/
 namespace Cactus
 open State
@@ -64,5 +73,89 @@ theorem C12_no_reference_to_given_up {s : State} (h : Reachable s) (he : s.err =
       obtain ⟨c, hm⟩ := (State.B_pos_iff hB a o).mp (by omega)
       have := State.entry_live hB hm (by simp)
       simp [hdead] at this
+
+
+/-! ## Values are moved out or cloned exactly once (`Cactus.Lemmas.Once`)
+
+Every value carries an identifier (`vid`) assigned when it is created; `make_mut`'s clone branch
+gives the copy a fresh one, `try_unwrap` and the stealing branch of `make_mut` *move* the value
+(same `vid`, new place).  In every state of every execution of every history — no contract, errors
+and panics included — no two places (heap slots, unwrapped values held by the program, values
+waiting for their destructor) hold a value with the same identifier, and a value that is still in
+place has not been destroyed: a value is never duplicated by a move and never destroyed while the
+program or an object still owns it. -/
+
+/-- two distinct places never hold values with the same identifier (`s.allVals`: the values in the
+heap, the unwrapped values held by the program, the values waiting for their destructor in
+`dropVal` frames) -/
+theorem C12_values_never_duplicated {s : State} (h : Reachable s) :
+    (s.allVals.map (·.vid)).Nodup := reachable_vids_nodup h
+
+/-- a value that is still in place (in the heap, unwrapped, or waiting for its destructor) has not
+been destroyed -/
+theorem C12_owned_value_not_destroyed {s : State} (h : Reachable s) :
+    ∀ v ∈ s.allVals, v.vid ∉ s.destroyedVids := reachable_stored_not_destroyed h
+
+/-- non-vacuity: `try_unwrap` of the sole handle of an adopting object with a Weak outstanding, then
+the former peer is dropped: no error, the moved value is held by the program and not destroyed -/
+example :
+    let s := run [(.act .new, []), (.act .new, []), (.act (.clone 1), []), (.act (.link 2 0), []),
+      (.act (.downgrade 0), []), (.act (.tryUnwrap 0), []), (.act (.drop 0), [])]
+    s.err = none ∧ s.vals.map (·.vid) = [0] ∧ s.destroyedVids = [] ∧ s.isLive 0 = false := by
+  decide +kernel
+
+/-! ## Non-vacuity: `try_unwrap` and the stealing branch of `make_mut` on adopting objects
+
+Object 0 holds and adopts object 1 and has a Weak: `try_unwrap` moves its value out (the program
+now holds the value, which still holds the handle to 1) and gives the allocation up.  Object 2 holds
+and adopts object 3 and has a Weak: `make_mut` steals its value into the fresh object 4 and gives the
+allocation up.  In both cases the former peer's table must forget the given-up allocation. -/
+
+def giveUpHistory : List (Op × List Nat) :=
+  [(.act .new, []), (.act .new, []),
+   (.act (.clone 1), []), (.act (.link 2 0), []),       -- 0 holds and adopts 1
+   (.act (.downgrade 0), []),                           -- Weak to 0
+   (.act (.tryUnwrap 0), []),                           -- 0 is unique: unwrapped, allocation given up
+   (.act .new, []), (.act .new, []),                    -- objects 2, 3; handles [1, 2, 3]
+   (.act (.clone 2), []), (.act (.link 3 1), []),       -- 2 holds and adopts 3
+   (.act (.downgrade 1), []),                           -- Weak to 2
+   (.act (.makeMut 1), []),                             -- 2 unique with a Weak: value stolen into object 4
+   (.act (.getMut 1), [])]                              -- the fresh allocation is unique: Some
+
+/-- the records exist before the two calls (tables of the objects after 5 and after 11 operations) -/
+example : (run (giveUpHistory.take 5)).heap.map (·.links)
+      = [some [(⟨1, .fwd⟩, 1)], some [(⟨0, .bwd⟩, 1)]]
+    ∧ (run (giveUpHistory.take 11)).heap.map (·.links)
+      = [none, some [], some [(⟨3, .fwd⟩, 1)], some [(⟨2, .bwd⟩, 1)]] := by
+  decide +kernel
+
+/-- the final state: both allocations given up (count 0, table and value gone, kept by their Weak),
+all tables empty, the unwrapped value (vid 0) held by the program, the stolen value (vid 2) in
+object 4; the three calls returned `Ok`, "stolen" and `Some` -/
+example : let s := run giveUpHistory
+    s.err = none ∧ s.roots = [1, 4, 3] ∧ s.wroots = [0, 2] ∧ s.vals.map (·.vid) = [0]
+    ∧ s.heap.map (fun ob => (ob.strong, ob.weak, ob.value.map (·.vid)))
+      = [(.cnt 0, 1, none), (.cnt 2, 1, some 1), (.cnt 0, 1, none), (.cnt 2, 1, some 3),
+         (.cnt 1, 1, some 2)]
+    ∧ s.heap.map (·.links) = [none, some [], none, some [], some []]
+    ∧ s.log = [.ret 1, .ret 1, .ret 1] ∧ s.destroyedVids = [] := by
+  decide +kernel
+
+/-- `C12_no_reference_to_given_up` instantiated: neither former peer keeps a record of the
+allocation that was given up -/
+example : ((run giveUpHistory).F 1 0 = 0 ∧ (run giveUpHistory).B 1 0 = 0)
+    ∧ ((run giveUpHistory).F 3 2 = 0 ∧ (run giveUpHistory).B 3 2 = 0) :=
+  ⟨C12_no_reference_to_given_up (run_reachable giveUpHistory) (by decide +kernel) (by decide +kernel),
+   C12_no_reference_to_given_up (run_reachable giveUpHistory) (by decide +kernel) (by decide +kernel)⟩
+
+/-- `C12_values_never_duplicated` / `C12_owned_value_not_destroyed` instantiated: the four values
+(two of them moved) sit in four distinct places and none has been destroyed -/
+example : ((run giveUpHistory).allVals.map (·.vid)).Nodup :=
+  C12_values_never_duplicated (run_reachable giveUpHistory)
+
+example : ∀ v ∈ (run giveUpHistory).allVals, v.vid ∉ (run giveUpHistory).destroyedVids :=
+  C12_owned_value_not_destroyed (run_reachable giveUpHistory)
+
+example : (run giveUpHistory).allVals.map (·.vid) = [1, 3, 2, 0] := by decide +kernel
 
 end Cactus
